@@ -18,7 +18,7 @@ META = {
         "seeded random histories (1-25 steps: demand write D>=0 / child state change / "
         "children.append / remove / clear / re-read) over UniformComposite and "
         "WeightedComposite(weight in supply, utilisation, allocation) with 0-12 recording "
-        "children; child values from {0, tiny 1e-100.., 1, huge ..1e100, random, equal}. "
+        "children; child values from {0, tiny 1e-100.., 1, huge ..1e100, random, equal}, utilisation / allocation also above 1. "
         "Non-trivial = at least one demand write with >= 2 children; distinct by content."
     ),
     "assumptions": [
@@ -40,7 +40,8 @@ def gen_mag(rnd, zero_p=0.2, unit=False):
     if k < zero_p:
         return rnd.choice([0, 0.0])
     if unit:  # a fraction-like fitness value
-        return rnd.choice([1.0, 0.5, 0.25, rnd.random(), rnd.random(), 1, 1e-100, 0.999999])
+        # fractions, but also values above 1 (overbooked pools): the statement admits all non-negative values
+        return rnd.choice([1.0, 0.5, 0.25, rnd.random(), rnd.random(), 1, 1e-100, 0.999999, 1.25, 1.75, 2, 7.5, 1 + rnd.random(), 1e3])
     if k < 0.3:
         return 10.0 ** rnd.randint(-100, -5) * rnd.randint(1, 9)
     if k < 0.4:
@@ -168,6 +169,8 @@ def execute(case, result):
                 if got == got and got not in (float("inf"), float("-inf")) and not close(got, mean, scale):
                     bad("%s %r is not the weighted mean %s" % (name, got, float(mean)))
                 result.count("aggregates_in_range")
+                if lo > 1:
+                    result.count("aggregates_of_children_all_above_one")
 
     for idx, op in enumerate(case["ops"]):
         kind = op[0]
@@ -252,7 +255,7 @@ def run_shard(spec):
 def finish(total, tier):
     for needed in (
         "writes_unequal_weights", "writes_uniform_fallback", "writes_uniform", "writes_without_children",
-        "fallback_no_children", "fallback_zero_weight_supply", "fallback_zero_weight_nosupply", "aggregates_in_range",
+        "fallback_no_children", "fallback_zero_weight_supply", "fallback_zero_weight_nosupply", "aggregates_in_range", "aggregates_of_children_all_above_one",
     ):
         if not total.counters.get(needed) and not total.violations:
             total.inconc("monitor never observed: " + needed)
